@@ -252,6 +252,21 @@ def solve_all(obs, progress=None):
             for ob in ex.map(lambda o: solve_one(o, 4), again):
                 if ob.status != "unknown":
                     ob.output = "[retried with 4x budget] " + ob.output
+    # last resort for a handful of stragglers (a machine busy with other checks starves the 20 s races): the same
+    # configurations again, one query at a time, with a wall-clock limit six times as long.  Skipped when many queries
+    # are open (changed code: the answer there is "undecided", not "wait longer").
+    left = [ob for ob in todo if ob.status == "unknown" and ob.kind != "canary"]
+    if 0 < len(left) <= 6:
+        slow = [(name, [c.replace("-T:20", "-T:120") for c in cmd]) for name, cmd in ALT_CONFIGS]
+        for ob in left:
+            for txt, tag in ((ob.text, ""), (getattr(ob, "text_light", None), "[light hypothesis subset] ")):
+                if not txt:
+                    continue
+                name, res, dt, outs = _race(slow, txt, 120)
+                if res == "unsat" or (res == "sat" and not tag):
+                    ob.status, ob.backend, ob.time = ("proved" if res == "unsat" else "refuted"), name, dt
+                    ob.output = "[last pass, 120 s] " + tag + " | ".join(outs)
+                    break
     return obs
 
 
